@@ -24,6 +24,8 @@ package core
 
 import (
 	"fmt"
+	"os"
+	"strings"
 	"go/token"
 	"go/types"
 	"reflect"
@@ -205,6 +207,15 @@ func (il *Inliner) Normalise(fn *ssa.Function) {
 				if _, isClosure := c.Call.Value.(*ssa.MakeClosure); isClosure {
 					continue
 				}
+				// a call from a generic body to a helper of the same generic type
+				// goes through an instantiation wrapper over the caller's own type
+				// parameters: the body to merge is the origin's
+				if o := g.Origin(); o != nil && strings.HasPrefix(g.Synthetic, "instantiation wrapper") && allTypeParams(g.TypeArgs()) {
+					g = o
+				}
+				if os.Getenv("GSA_INLDBG") != "" && InModule(g) && !il.Known(g) {
+					fmt.Fprintf(os.Stderr, "callee %s: blocks=%d synthetic=%q typeargs=%v origin=%v parent=%v obj=%v\n", g, len(g.Blocks), g.Synthetic, g.TypeArgs(), g.Origin(), g.Parent(), g.Object())
+				}
 				if g == fn || !il.inlinable(g) {
 					continue
 				}
@@ -250,7 +261,32 @@ func sameTypeParamScope(fn, g *ssa.Function, c *ssa.Call) bool {
 	if g.TypeParams().Len() == 0 {
 		return true
 	}
+	if cg := c.Call.StaticCallee(); cg != nil && cg.Origin() == g && allTypeParams(cg.TypeArgs()) && fn.TypeParams().Len() == g.TypeParams().Len() {
+		// the cloned instructions keep the callee's own type-parameter
+		// objects in their types; the rules compare values, not these types
+		return true
+	}
+	if os.Getenv("GSA_INLDBG") != "" {
+		fmt.Fprintf(os.Stderr, "generic callee %s: blocks=%d synthetic=%q typeargs=%v origin=%v originBlocks=%d\n", g, len(g.Blocks), g.Synthetic, g.TypeArgs(), g.Origin(), func() int {
+			if g.Origin() != nil {
+				return len(g.Origin().Blocks)
+			}
+			return -1
+		}())
+	}
 	return false
+}
+
+func allTypeParams(ts []types.Type) bool {
+	if len(ts) == 0 {
+		return false
+	}
+	for _, t := range ts {
+		if _, ok := types.Unalias(t).(*types.TypeParam); !ok {
+			return false
+		}
+	}
+	return true
 }
 
 // inlineCall replaces the call instruction by a clone of the callee's body.
